@@ -12,7 +12,7 @@
    of the case; exactly for integers (indices, ranks, inside/outside, node counts), 1e-9 relative
    for coordinates.
 """
-import json, math, os, random, collections, time, types, multiprocessing, concurrent.futures
+import json, math, os, random, collections, time, types, hashlib, multiprocessing, concurrent.futures
 import vlib
 from vlib import Check, Broken, log
 
@@ -134,22 +134,19 @@ class Conjugator:
 class CaseWriter:
     """Turns the records printed by TLC into the input lines of the harness (as emitted + conjugated)."""
 
-    def __init__(self, paths, conj_every, seed):
-        self.fs = [open(p, "w") for p in paths]
+    def __init__(self, f, conj_every, seed):
+        self.f = f
         self.n = 0
         self.ntlc = 0
-        self.gids = {}
         self.conj = Conjugator(seed)
-        self.conj_every = conj_every          # conjugate the grids whose number is a multiple of this (0 = never)
-        self.gnum = {}
+        self.conj_every = conj_every          # conjugate the grids whose key hashes to a multiple of this (0 = never)
         self.by_kind = collections.Counter()
         self.nconj = 0
+        self.base_id = 0
 
-    def gid(self, key):
-        g = self.gids.get(key)
-        if g is None:
-            g = self.gids[key] = len(self.gids)
-        return g
+    @staticmethod
+    def stable(text):
+        return int.from_bytes(hashlib.blake2b(text.encode(), digest_size=6).digest(), "big")
 
     def emit(self, v):
         self.ntlc += 1
@@ -173,14 +170,9 @@ class CaseWriter:
         base["conj"] = 0
         base["zero"] = 0
         base["one"] = 1
-        self.write(base, (gkey, 0))
+        self.write(base, self.stable(gkey + "|0"))
         self.by_kind[v["k"]] += 1
-        if nd < 2 or not self.conj_every:
-            return
-        num = self.gnum.get(gkey)
-        if num is None:
-            num = self.gnum[gkey] = len(self.gnum)
-        if num % self.conj_every:
+        if nd < 2 or not self.conj_every or self.stable(gkey) % self.conj_every:
             return
         Q = self.conj.q(gkey, nd)
         c = dict(base)
@@ -201,18 +193,82 @@ class CaseWriter:
             c["MI"] = matmul(c["MI"], transpose(Q))
             c["rotated"] = 1
         c["conj"] = 1
-        self.write(c, (gkey, 1))
+        self.write(c, self.stable(gkey + "|1"))
         self.nconj += 1
 
-    def write(self, c, gk):
-        c["id"] = self.n
-        c["gid"] = self.gid(gk)
-        self.fs[c["gid"] % len(self.fs)].write(json.dumps(c, separators=(",", ":")) + "\n")
+    def write(self, c, gid):
+        c["id"] = self.base_id + self.n
+        c["gid"] = gid
+        self.f.write(json.dumps(c, separators=(",", ":")) + "\n")
         self.n += 1
 
+
+# conversion of the TLC records in a pool of processes, each appending to its own file (= one shard)
+BATCH = 4000
+_wfile = None
+_wpath = None
+
+
+def _pool_init(workdir):
+    global _wfile, _wpath
+    _wpath = os.path.join(workdir, "cases_%d.ndjson" % os.getpid())
+    _wfile = open(_wpath, "w")
+
+
+def _convert_batch(args):
+    batch_no, records, conj_every, seed = args
+    cw = CaseWriter(_wfile, conj_every, seed)
+    cw.base_id = batch_no * 4 * BATCH
+    try:
+        for v in records:
+            cw.emit(v)
+    except Broken as b:
+        return {"error": str(b)}
+    _wfile.flush()
+    return {"path": _wpath, "n": cw.n, "ntlc": cw.ntlc, "nconj": cw.nconj, "by_kind": cw.by_kind, "error": None}
+
+
+class ParallelEmitter:
+    def __init__(self, workdir, nproc, conj_every, seed):
+        self.pool = multiprocessing.Pool(nproc, initializer=_pool_init, initargs=(workdir,))
+        self.nproc = nproc
+        self.conj_every, self.seed = conj_every, seed
+        self.buf = []
+        self.batch_no = 0
+        self.pending = []
+        self.done = []
+
+    def emit(self, v):
+        self.buf.append(v)
+        if len(self.buf) >= BATCH:
+            self.flush()
+
+    def flush(self):
+        if not self.buf:
+            return
+        self.pending.append(self.pool.apply_async(_convert_batch, ((self.batch_no, self.buf, self.conj_every, self.seed),)))
+        self.batch_no += 1
+        self.buf = []
+        while len(self.pending) > 3 * self.nproc:
+            self.done.append(self.pending.pop(0).get())
+
     def close(self):
-        for f in self.fs:
-            f.close()
+        self.flush()
+        self.done += [p.get() for p in self.pending]
+        self.pool.close()
+        self.pool.join()
+        self.n = self.ntlc = self.nconj = 0
+        self.by_kind = collections.Counter()
+        paths = set()
+        for d in self.done:
+            if d["error"]:
+                raise Broken(d["error"])
+            self.n += d["n"]
+            self.ntlc += d["ntlc"]
+            self.nconj += d["nconj"]
+            self.by_kind.update(d["by_kind"])
+            paths.add(d["path"])
+        return sorted(paths)
 
 
 # --------------------------------------------------------------------------- comparison
@@ -403,14 +459,18 @@ def run(tier):
     exe = vlib.build_harness("grid_run")
     w = ck.work
     nshard = max(1, min(8, vlib.NCPU // 2))
-    caseps = [os.path.join(w, "cases_%d.ndjson" % i) for i in range(nshard)]
-    obsps = [os.path.join(w, "observed_%d.ndjson" % i) for i in range(nshard)]
     workers = int(os.environ.get("VERIF_TLC_WORKERS", "0")) or None
-    # 1. TLC: invariants of the model + emission of the cases
-    cw = CaseWriter(caseps, conj_every=(2 if tier == "quick" else 1), seed=vlib.seed())
-    res = vlib.run_tlc("MC_GridGeom", "MC_GridGeom_%s.cfg" % tier, workers=workers, timeout=3000, on_emit=cw.emit,
-                       heap="8g")
-    cw.close()
+    # 1. TLC: invariants of the model + emission of the cases (converted to harness input by a pool of processes)
+    cw = ParallelEmitter(w, nshard, conj_every=(2 if tier == "quick" else 1), seed=vlib.seed())
+    try:
+        res = vlib.run_tlc("MC_GridGeom", "MC_GridGeom_%s.cfg" % tier, workers=workers, timeout=3000, on_emit=cw.emit,
+                           heap="8g")
+    except BaseException:
+        cw.pool.terminate()
+        raise
+    caseps = cw.close()
+    nshard = len(caseps)
+    obsps = [os.path.join(os.path.dirname(p), os.path.basename(p).replace("cases_", "observed_")) for p in caseps]
     if res.violation:
         raise Broken("GridGeom.tla violates its own invariant (the model is wrong):\n" + res.violation)
     if cw.ntlc != res.distinct:
